@@ -71,6 +71,7 @@ type programL struct {
 	Cacheable bool
 	RateDelta int  // >0: recv increments a rate counter by this much
 	Penalty   bool // recv adds the client to a penalty box when X-Punish is set
+	HashVary  bool // vcl_hash adds the X-V request header to the hash
 }
 
 func stmtFor(action string) string {
@@ -105,6 +106,10 @@ func (p *programL) render() string {
 			if p.Penalty {
 				b.WriteString("  if (ratelimit.penaltybox_has(pb_a, req.http.X-Client)) {\n    set req.http.X-Boxed = \"1\";\n  } else {\n    set req.http.X-Boxed = \"0\";\n  }\n")
 				b.WriteString("  if (req.http.X-Punish && req.restarts == 0) {\n    ratelimit.penaltybox_add(pb_a, req.http.X-Client, 2m);\n  }\n")
+			}
+		case "hash":
+			if p.HashVary {
+				b.WriteString("  set req.hash += req.http.X-V;\n")
 			}
 		case "fetch":
 			if p.Cacheable {
@@ -400,6 +405,7 @@ func drawProgramL(c *worker.Ctx) *programL {
 		p.RateDelta = 1 + c.T.Draw(5)
 	}
 	p.Penalty = c.T.Bool(1, 3)
+	p.HashVary = c.T.Bool(1, 3)
 	for _, s := range scopes {
 		pick := func() string {
 			la := legalActions[s]
@@ -496,6 +502,7 @@ func runC06(c *worker.Ctx) {
 		if c.T.Bool(1, 3) {
 			sp.Header.Set("X-Punish", "1")
 		}
+		sp.Header.Set("X-V", []string{"v1", "v2"}[c.T.Draw(2)])
 		if i > 0 {
 			// advance relative to the TTLs in play
 			T := p.TTL
@@ -529,7 +536,7 @@ func runC06(c *worker.Ctx) {
 		return b
 	}
 	vcl := p.render()
-	c.Logf("program %s ttl=%v cacheable=%v rate=%d penalty=%v reqs=%d faulty=%v", p.signature(), p.TTL, p.Cacheable, p.RateDelta, p.Penalty, nReq, faulty)
+	c.Logf("program %s ttl=%v cacheable=%v rate=%d penalty=%v hashvary=%v reqs=%d faulty=%v", p.signature(), p.TTL, p.Cacheable, p.RateDelta, p.Penalty, p.HashVary, nReq, faulty)
 
 	var recs []*respRec
 	var w *world
@@ -577,6 +584,9 @@ func runC06(c *worker.Ctx) {
 			return true
 		}
 		hash := r.Spec.URL
+		if p.HashVary {
+			hash += "|" + r.Spec.Header.Get("X-V")
+		}
 		v := expect(p, m, hash, r.StartedAt, obs, originOK)
 		sigParts = append(sigParts, fmt.Sprintf("%d:%s:%s|%s|e%v|o%v|c%v", i, r.Spec.URL, advClass(r.Spec.Advance, p.TTL), strings.Join(obs, ">"), v.wantError, v.openEnded, r.Proc.Cached))
 		c.Logf("req %d %s obs=%v exp=%v exact=%v err=%v open=%v(%s) restarts=%d/%d error=%q", i, r.Spec.URL, obs, v.path, v.exact, v.wantError, v.openEnded, v.why, r.Proc.Restarts, v.restarts, clip(r.Proc.Error, 80))
